@@ -355,34 +355,37 @@ class ProtocolContext:
             raise exc.ProtocolSendFailed(f"{self}: Send failed: {err}") from err
 
     def _check_buffer_for_cmd(self) -> None:
-        self._lock.acquire()
-        assert isinstance(self.is_sending, bool), f"{self}: Coding error"  # mypy hint
+        with self._lock:  # released even if a consistency check (assert) trips
+            assert isinstance(
+                self.is_sending, bool
+            ), f"{self}: Coding error"  # mypy hint
 
-        if self._fut is not None and not self._fut.done():
-            self._lock.release()
-            return
-
-        while True:
-            try:
-                *_, self._cmd, self._qos, self._fut, self._send_fnc = (
-                    self._que.get_nowait()
-                )
-            except Empty:
-                self._cmd = self._qos = self._fut = None
-                self._lock.release()
+            if not isinstance(self._state, IsInIdle):  # e.g. connection was just lost
                 return
 
-            self._cmd_tx_count = 0
-            self._cmd_tx_limit = min(self._qos.max_retries, self.max_retry_limit) + 1
+            if self._fut is not None and not self._fut.done():
+                return
 
-            assert isinstance(self._fut, asyncio.Future)  # mypy hint
-            if self._fut.done():  # e.g. TimeoutError
-                self._que.task_done()
-                continue
+            while True:
+                try:
+                    *_, self._cmd, self._qos, self._fut, self._send_fnc = (
+                        self._que.get_nowait()
+                    )
+                except Empty:
+                    self._cmd = self._qos = self._fut = None
+                    return
 
-            break
+                self._cmd_tx_count = 0
+                self._cmd_tx_limit = (
+                    min(self._qos.max_retries, self.max_retry_limit) + 1
+                )
 
-        self._lock.release()
+                assert isinstance(self._fut, asyncio.Future)  # mypy hint
+                if self._fut.done():  # e.g. TimeoutError
+                    self._que.task_done()
+                    continue
+
+                break
 
         try:
             assert self._cmd is not None, f"{self}: Coding error"  # mypy hint
